@@ -185,7 +185,7 @@ fn big_txn(ctx: &ShardCtx, nested: u32) -> BoxedStrategy<CrashCase> {
 /// Open-schema-change shape: a session changes a column's constraints (or its default) and stays open while other
 /// transactions on another table commit (which forces its log records to disk); it then commits, or never ends.
 /// After every crash point the tables must accept and reject what the acknowledged schema accepts and rejects.
-fn open_schema_change(ctx: &ShardCtx, nested: u32) -> BoxedStrategy<CrashCase> {
+pub fn open_schema_change(ctx: &ShardCtx, nested: u32) -> BoxedStrategy<CrashCase> {
     let excluded: Vec<String> = ctx.excludes.keys().cloned().collect();
     (any::<bool>(), any::<bool>(), prop::collection::vec(0u8..12, 0..3), prop::collection::vec((any::<u16>(), 0u8..4, 0u8..12), 1..3), prop::collection::vec(0u8..12, 1..3), 0u8..3, any::<bool>(), prop::collection::vec(0u8..12, 0..3))
         .prop_map(move |(nn0, nn1, pre, alters, others, end, flush_after, post)| {
